@@ -925,7 +925,7 @@ peg::parser! {
             heredoc_literal_text()
 
         rule heredoc_escape_sequence() -> WordPiece =
-            s:$("\\" ['$' | '`' | '\\']) { WordPiece::EscapeSequence(s.to_owned()) }
+            s:$("\\" ['$' | '`' | '\\' | '\n']) { WordPiece::EscapeSequence(s.to_owned()) }
 
         rule heredoc_literal_text() -> WordPiece =
             s:$((!heredoc_escape_sequence() !dollar_sign_word_piece() [^'`'])+) {
